@@ -847,6 +847,33 @@ theorem args_stay_local_of_lexical (p : Prog) (hwf : WF p) (X : Lexical p) (b : 
   args_stay_local p hwf b tr h (mainClean_of_lexical p hwf b tr h X) s a
     (by rw [(arguments_of_requested p b tr h).1 s pg l hs hpg hl]; exact ha) v g hp hdep
 
+/-- **property_of_lexical** — the statement of C04 for programs of the front end, in one theorem: if a
+    program in creation order satisfies the lexical condition and its build succeeds, then in the built
+    model (1) every operator application occurs exactly once if some requested output depends on it and
+    not at all otherwise; (2) every emitted vertex sits in exactly one graph, the lowest common ancestor
+    of all graphs reading it; (3) every emitted vertex depending freely on an argument of a body sits
+    inside that body; (4) the emission is accepted by the ONNX scoping rule of C01's `validG` (hence
+    evaluates to the program's denotation, `build_correct_of_lexical`). Programs that leak a body's
+    argument to an outer scope are rejected: `leak_rejected`. -/
+theorem property_of_lexical (p : Prog) (hwf : WF p) (X : Lexical p) (b : Built) (tr : List Ev)
+    (h : build p = .ok (b, tr)) :
+    (∀ n, p.isArg n = false →
+      (Reach p.adjFull (.src 0) (.node n) → (emitted tr).count (.node n) = 1) ∧
+      (¬ Reach p.adjFull (.src 0) (.node n) → (emitted tr).count (.node n) = 0)) ∧
+    (∀ v, v ∈ emitted tr → ∃ g, (v, g) ∈ placed tr [] ∧ (∀ g', (v, g') ∈ placed tr [] → g' = g) ∧
+      LowestP (parent b.owner b.scopeOf)
+        (fun G => G ∈ b.graphTopo ∧ Reach p.adjIn (.src G) v) g) ∧
+    (∀ s pg l a v g, s ∈ b.graphTopo → p.graphs[s]? = some pg → pg.args = some l → a ∈ l →
+      (v, g) ∈ placed tr [] → Reach (Bridge.adjCut p s) v (.node a) →
+      Anc (parent b.owner b.scopeOf) s g) ∧
+    Prog.validG (Bridge.toProg p b.argsOf).nodes (Bridge.toEGraph p b)
+      (Bridge.toProg p b.argsOf).main [] = true :=
+  ⟨fun n hn => emitted_once p hwf b tr h n hn,
+   fun v hv => emitted_in_least_enclosing p hwf b tr h v hv,
+   fun s pg l a v g hs hpg hl ha hp hdep =>
+     args_stay_local_of_lexical p hwf X b tr h s pg l hs hpg hl a ha v g hp hdep,
+   build_valid_of_lexical p hwf X b tr h⟩
+
 /-! ### the Builder does not look at what kind of operator a node is
 
 `BuildAlg.Prog` has no field for the operator type, domain, version, attributes or number of outputs
@@ -1014,6 +1041,11 @@ theorem generated_methods_covered :
 /-- no module-level state in `_build.py` (a module-level cache would be a new name) -/
 theorem generated_module_names_covered :
     Generated.BuildAlgFacts.moduleNames = BuildAlgCover.moduleNames := by decide
+
+/-- no module-level state in `_graph.py` (where `subgraph()` traces the body callbacks), `_internal_op.py`,
+    `_traverse.py` either: a memo table keyed by callback / node would be a new name -/
+theorem generated_other_module_names_covered :
+    Generated.BuildAlgFacts.otherModuleNames = BuildAlgCover.otherModuleNames := by decide
 
 /-- class-level attributes: the annotated Builder / ScopeTree / BuildResult fields, nothing assigned -/
 theorem generated_class_attrs_covered :
